@@ -19,8 +19,12 @@ except ValueError:
 ok = o["tests_ok"] and o["demo_clean_rc"] == 0 and o["demo_patched_rc"] == 1
 dst = os.path.join(VERIF, "seeded", name)
 os.makedirs(dst, exist_ok=True)
+same = os.path.realpath(src) == os.path.realpath(dst)
+old_meta = {}
+if same and os.path.exists(os.path.join(dst, "meta.json")):
+    old_meta = json.load(open(os.path.join(dst, "meta.json")))
 for f in ("patch.diff", "demo.py", "notes.txt"):
-    if os.path.exists(os.path.join(src, f)):
+    if not same and os.path.exists(os.path.join(src, f)):
         shutil.copy(os.path.join(src, f), os.path.join(dst, f))
 notes = open(os.path.join(src, "notes.txt")).read() if os.path.exists(os.path.join(src, "notes.txt")) else ""
 meta = {
@@ -41,5 +45,11 @@ meta = {
                     for p, c in o["checks"].items()},
     "origin": "independent sub-agent given only the property text and a scratch worktree",
 }
+if same:
+    meta["origin"] = old_meta.get("origin", meta["origin"])
+    meta["rebased"] = ("patch.diff was re-based on the current tree after later fix: commits "
+                       "changed its context lines (same semantic change); re-confirmed")
+    if old_meta.get("detected_by"):
+        meta["first_detected_by"] = old_meta.get("first_detected_by", old_meta["detected_by"])
 json.dump(meta, open(os.path.join(dst, "meta.json"), "w"), indent=1)
 print(name, "confirmed" if ok else "NOT CONFIRMED", {p: c["rc"] for p, c in o["checks"].items()})
